@@ -83,19 +83,19 @@ Print Assumptions C08_position_blind.
    `lay 2 z z'` (proofs/ParserLayout.v) relates two texts that consist of the same characters with trivia at the same
    places: character by character equal (no blank, tab, CR, LF or double quote among them; a `/` is not followed by
    `/` or `*`), and at any place both texts may carry trivia instead -- ANY texts from which the model's own trivia
-   parsers behave alike: both start with blank/tab/`/`, the single-line trivia parser leads from them to texts related
-   at level 1 and the multi-line trivia parser to texts related at level 0 (in every state, at every offset, silently),
-   or both start with CR/LF and the multi-line trivia parser leads to texts related at level 0.  Trivia are therefore
-   replaced by other trivia (blanks by tabs or comments, LF by CRLF, empty lines added, line comment by block comment),
-   not inserted between two characters that touch nor removed entirely.
+   parsers behave alike: both start with blank/tab/`/`/CR/LF, the single-line trivia parser leads from them to texts
+   related at level 1 and the multi-line trivia parser to texts related at level 0 (in every state, at every offset,
+   silently), or both start with CR/LF and the multi-line trivia parser leads to texts related at level 0.  Trivia are
+   therefore replaced by other trivia (blanks by tabs or comments, LF by CRLF, empty lines added, line comment by block
+   comment; a comment or blanks in front of a line break in one text and nothing in the other; trivia after the last
+   statement in one text and none in the other), not inserted between two characters that touch nor removed there.
    `lay2 2 Rtok statement`: (i) diagnostics never disappear; (ii) run on two such texts from silent states (no
    diagnostics so far, same scope counter and nesting depth), at any offsets, the statement parser either reports in
    BOTH runs, or stays silent in both and returns tokens of EQUAL SKELETON (or fails / aborts alike), the remaining
    texts again related, and both runs consumed something or both consumed nothing.
    What the statement does not cover: string literals (a double quote is not among the common characters, so `.text`,
    `.file`, `.import .. from "f"`, assert messages with a string do not occur), insertion or removal of trivia between
-   touching tokens (`a+b` against `a + b`), single-line trivia in front of a line break in one text only
-   (`nop // c<LF>` against `nop<LF>`), the letter case of keywords, and texts that produce diagnostics (error tokens
+   touching tokens (`a+b` against `a + b`), the letter case of keywords, and texts that produce diagnostics (error tokens
    contain the trivia inside them, so there the skeletons differ legitimately; the theorem only says both runs report). *)
 Theorem C08_layout_inner : lay2 2 Rtok statement.
 Proof. exact statement_lay. Qed.
@@ -158,3 +158,13 @@ Example C08_layout_example :
   lay 2 [108; 100; 97; 32; 35; 49; 32; 43; 32; 120; 32; 47; 47; 32; 99; 10; 114; 116; 115]
         [108; 100; 97; 9; 35; 49; 32; 47; 42; 99; 42; 47; 32; 43; 32; 32; 120; 32; 47; 42; 100; 42; 47; 13; 10; 13; 10; 32; 114; 116; 115].
 Proof. exact layout_example. Qed.
+(* trailing trivia on one side only: `lda #1 // one<LF>  rts /* two */ // three<LF>` against `lda #1<LF>rts<LF><LF>` *)
+Example C08_layout_example_trailing :
+  lay 2 [108; 100; 97; 32; 35; 49; 32; 47; 47; 32; 111; 110; 101; 10; 32; 32; 114; 116; 115; 32; 47; 42; 32; 116; 119; 111; 32; 42; 47; 32; 47; 47; 32; 116; 104; 114; 101; 101; 10]
+        [108; 100; 97; 32; 35; 49; 10; 114; 116; 115; 10; 10].
+Proof. exact layout_example_trailing. Qed.
+(* ... and at the end of the text: `lda #1<LF>rts // end<LF><LF>` against `lda #1 /* x */<LF><TAB>rts` *)
+Example C08_layout_example_end :
+  lay 2 [108; 100; 97; 32; 35; 49; 10; 114; 116; 115; 32; 47; 47; 32; 101; 110; 100; 10; 10]
+        [108; 100; 97; 32; 35; 49; 32; 47; 42; 32; 120; 32; 42; 47; 10; 9; 114; 116; 115].
+Proof. exact layout_example_end. Qed.
